@@ -57,8 +57,8 @@ ASSUMPTIONS = [
     "BlockingExecutor is the main target; the generic Executor and graphql_blocking are run on the fault-free world only (the other runtimes belong to C08)",
 ]
 BOUNDS = {
-    "quick": {"base_nodes": 4, "dev1_nodes": 2, "dev2_nodes": 1, "exhaustive_invocations": 4, "faults_beyond": 1, "history_depth": 3, "menu": 9},
-    "thorough": {"base_nodes": 5, "dev1_nodes": 3, "dev2_nodes": 2, "exhaustive_invocations": 5, "faults_beyond": 2, "history_depth": 4, "menu": 9},
+    "quick": {"base_nodes": 4, "dev1_nodes": 2, "dev2_nodes": 1, "exhaustive_invocations": 4, "faults_beyond": 1, "history_depth": 3, "menu": 9, "shared_fragment_parents": "all ordered pairs + 3 triples x 7 extras per parent; type/list-shape faults only"},
+    "thorough": {"base_nodes": 5, "dev1_nodes": 3, "dev2_nodes": 2, "exhaustive_invocations": 5, "faults_beyond": 2, "history_depth": 4, "menu": 9, "shared_fragment_parents": "all ordered pairs + 9 triples x 7 extras per parent; all <=1-fault worlds"},
 }
 TIME_CAP = {"quick": 150, "thorough": 1500}
 
@@ -111,6 +111,8 @@ def cases(tier):
             for idx in range(cnt):
                 yield {"k": "base", "schema": name, "root": root, "n": n, "idx": idx}
     yield {"k": "multi-op"}
+    for j, (tc, parents) in enumerate(O.shared_fragment_parent_tuples(S.SCHEMAS["D"], tier)):
+        yield {"k": "shared-frag", "tc": tc, "parents": [list(p) for p in parents]}
     for depth in range(1, b["history_depth"] + 1):
         for h in _histories(depth, b["menu"]):
             yield {"k": "history", "h": h}
@@ -344,6 +346,10 @@ def compare(ref, lib, mode, feat):
     return out
 
 
+def _type_and_list_only(key, alt):
+    return key.endswith("#") or alt == "[v,v]"
+
+
 def features(case):
     heads = sorted({d.split(":")[0] + (":" + d.split(":")[1] if d.startswith("dir:") else "") for d in case.get("devs", [])})
     return "+".join(heads) if heads else "base"
@@ -389,7 +395,12 @@ def run_document(name, case, st, bounds, opnames=(None,)):
             max_faults = 99 if exhaustive else bounds["faults_beyond"]
             lib0 = None
             seen0 = set()
-            for world, ref in R.enumerate_worlds(sm, doc, locs, opname, variables, max_faults):
+            alt_filter = None
+            if bounds.get("type_and_list_faults_only"):
+                # (shared-fragment family, quick) only departures that change which objects exist:
+                # the concrete type of an abstract value, a second list item
+                alt_filter = _type_and_list_only
+            for world, ref in R.enumerate_worlds(sm, doc, locs, opname, variables, max_faults, alt_filter=alt_filter):
                 if ref.unsupported:
                     st.n("reference_unsupported")
                     continue
@@ -606,6 +617,16 @@ def check_case(case, st):
         out = []
         for name, c, opnames in multi_op_cases():
             out.extend(run_document(name, c, st, bounds, opnames))
+        return out
+    if k == "shared-frag":
+        out = []
+        sf_bounds = dict(bounds, type_and_list_faults_only=(case["t"] == "quick"), exhaustive_invocations=0, faults_beyond=1)
+        for tag, c in O.shared_fragment_docs(S.SCHEMAS["D"], case["tc"], [tuple(p) for p in case["parents"]]):
+            if st.counters.get("documents", 0) % 1499 == 1:
+                st.sample({"schema": "D", "doc": O.render(c["doc"])})
+            out.extend(run_document("D", c, st, sf_bounds))
+            if len(out) > 40 or st.out_of_time():
+                break
         return out
     name = case["schema"]
     sm = S.SCHEMAS[name]
